@@ -1,5 +1,7 @@
 import ClusterVerif.Lemmas.C03
 import ClusterVerif.Lemmas.C03Sort
+import ClusterVerif.Model.C03Skeleton
+import ClusterVerif.Gen.C03
 
 /-!
 # C03 — allocations honour the replication factors and use only healthy peers
@@ -125,5 +127,14 @@ private def ex1 : Input :=
     peers := [(0, .valid 5), (1, .valid 1), (2, .valid 1), (3, .valid 7), (4, .valid 0), (5, .expired), (6, .nonNumeric)] }
 example : wf ex1 = true ∧ allocate ex1 = .ok [0, 3, 1] ∧ allowed ex1 (allocate ex1) = true ∧
     allowed ex1 (.ok [0, 3, 2]) = true ∧ allowed ex1 (.ok [0, 1, 2]) = false ∧ holds ex1 (.ok [0, 1, 2]) = false := by decide
+
+/-! ### The source still reads as the model was transcribed (regenerated on every run) -/
+
+theorem gen_allocate_skeleton : Gen.allocateSkeleton = Expected.allocateSkeleton := by rfl
+theorem gen_classification_order : Gen.classification = Expected.classification := by rfl
+theorem gen_obtain_skeleton : Gen.obtainSkeleton = Expected.obtainSkeleton := by rfl
+theorem gen_valid_skeleton : Gen.validSkeleton = Expected.validSkeleton := by rfl
+theorem gen_allocators : Gen.ascendAllocate = Expected.ascendAllocate ∧ Gen.descendAllocate = Expected.descendAllocate ∧
+    Gen.sortNumeric = Expected.sortNumeric ∧ Gen.sorterLess = Expected.sorterLess := ⟨rfl, rfl, rfl, rfl⟩
 
 end CV.C03
